@@ -6,6 +6,8 @@ cd /verif
 git -C /repo diff --quiet || { echo "/repo not clean"; exit 2; }
 git -C /repo apply /verif/seeded/$name/patch.diff || { echo "patch does not apply"; exit 2; }
 for p in "$@"; do
+  # the evidence files must describe runs on the UNCHANGED tree: keep them aside
+  [ -f evidence/$p.json ] && cp evidence/$p.json /tmp/evidence_keep_$p.json
   out=$(./check $p --tier quick 2>&1); rc=$?
   nv=$(echo "$out" | grep -c '^VIOLATION')
   first=$(echo "$out" | grep '^VIOLATION' | head -1)
@@ -13,6 +15,8 @@ for p in "$@"; do
   [ -n "$first" ] && echo "   $first" | tee -a /verif/seeded/$name/runs.txt
   # keep one replay file of the detection as evidence
   f=$(echo "$first" | sed -n 's/.*replay=\([^ ]*\).*/\1/p'); [ -n "$f" ] && cp "$f" /verif/seeded/$name/detected_by_$p.json
+  rm -f evidence/replay/$p-*.json
+  [ -f /tmp/evidence_keep_$p.json ] && mv /tmp/evidence_keep_$p.json evidence/$p.json
 done
 git -C /repo checkout -- .
 git -C /repo status --short | head -3
